@@ -112,7 +112,7 @@ def parse_file(path, rel):
             stack.pop()
     for g in groups:
         raw = ' '.join(r[3] for r in g.rungs)
-        g.relevant = bool(re.search(r'AVEL_(?!ENABLE|L\d_CACHE|FINL|FORCE)[A-Z0-9_]+|__cplusplus', raw)) and \
+        g.relevant = bool(re.search(r'AVEL_(?!ENABLE|L\d_CACHE|FINL|FORCE)[A-Z0-9_]+|__cplusplus|__clang__|__GNUC__', raw)) and \
             not re.search(r'_HPP\b', raw)
     return groups
 
@@ -134,8 +134,9 @@ class Env:
         return self.vals.get(x, 0)
 
 
-def selected_rungs(groups, env):
-    """Return set of (file, line) of rungs selected under env."""
+def selected_rungs(groups, env, implicit_else=False):
+    """Return set of (file, line) of rungs selected under env.  With implicit_else, a relevant group without #else in
+    which no rung is selected contributes the pseudo-rung (file, -line of its #if): "compiled without this block"."""
     sel = {}
     out = set()
     for g in groups:  # groups are in file order, parents before children
@@ -159,6 +160,8 @@ def selected_rungs(groups, env):
         sel[id(g)] = chosen
         if chosen is not None and g.relevant:
             out.add((g.file, g.rungs[chosen][0]))
+        elif chosen is None and g.relevant and implicit_else:
+            out.add((g.file, -g.rungs[0][0]))
     return out
 
 
